@@ -15,7 +15,7 @@ from typing import (
 
 from ..exc import ExtensionError, SDLError
 from ..lang import ast as _ast, parse
-from ..schema import NamedType, ObjectType, Schema
+from ..schema import NamedType, ObjectType, Schema, is_introspection_type
 from .ast_type_builder import ASTTypeBuilder
 from .schema_directives import TSchemaDirective, apply_schema_directives
 
@@ -228,10 +228,12 @@ def extend_schema(
     ]
 
     # Cast is safe as type defs will always lead to named types and not wrapped types
+    # All known types are carried over (not only the extended ones) so that
+    # types which are not reachable from the root types are not lost.
     types = [
         cast(NamedType, builder.extend_type(t))
         for t in schema.types.values()
-        if t.name in type_exts
+        if not is_introspection_type(t)
     ] + [
         cast(NamedType, builder.extend_type(builder.build_type(t)))
         for t in type_defs.values()
